@@ -12,33 +12,30 @@
    running out of gas).  [sane]: item lengths and stack depth are Go ints; [ctx_sane]:
    the context's amount / index / height are uint64.
 
-   Covered by the proved theorem: every opcode byte 0x00–0xff EXCEPT CHECKPREDICATE (0xc0),
-   i.e. numeric 0x8b–0xa5, bitwise/equality 0x83–0x88, splice 0x7e–0x82 0x89, stack
-   0x6b–0x7d, control 0x61 0x63 0x64 0x69 0x6a, push data / constants 0x00–0x4e 0x51–0x60,
-   crypto 0xa8 0xaa–0xae, introspection 0xc1–0xc4 0xc9–0xcb 0xcd, and all undefined
-   ("expansion") bytes.  Hence the name …_partial; the full statement is [c08_full]. *)
+   [c08_exec_refines_spec_full] covers all 256 opcode bytes: numeric 0x8b–0xa5,
+   bitwise/equality 0x83–0x88, splice 0x7e–0x82 0x89, stack 0x6b–0x7d, control 0x61 0x63 0x64
+   0x69 0x6a 0xc0 (CHECKPREDICATE, with the child's consumption in the cost), push data /
+   constants 0x00–0x4e 0x51–0x60, crypto 0xa8 0xaa–0xae, introspection 0xc1–0xc4 0xc9–0xcb
+   0xcd, and all undefined ("expansion") bytes. *)
 From Coq Require Import List ZArith NArith Bool.
 From Verif Require Import VM.
-From C08 Require Import Spec Base Control Crypto Predicate Proofs.
+From C08 Require Import Spec Base Control Crypto Predicate Proofs Runs.
 Import ListNotations.
 
-(* ---- the full statement ---- *)
+(* ---- every opcode byte ---- *)
 
-(* Target shape of the complete theorem: the same equation for EVERY opcode byte.  It is
-   proved below for every byte except CHECKPREDICATE (0xc0); for CHECKPREDICATE the stacks
-   and the error class are proved ([c08_checkpredicate_stacks]) but not the gas component:
-   the instruction's charge also contains the child VM's own consumption
-     64 + (limit - child gas left) - memory(child's final stacks) + memory(arguments handed over),
-   which the reference cost table [spec_cost] (entry 192) does not carry; gas accounting
-   across CHECKPREDICATE is the subject of C07. *)
-Definition c08_exec_refines_spec_full : Prop :=
-  forall cr cx rc s i, sane s -> ctx_sane cx ->
-    parse_op (prog s) (pc s) = inr i -> (i_op i < 256)%N ->
-    enough_gas cr cx rc i s ->
-    outcome (step cr cx rc s) = spec_instr cr cx rc i s.
+(* [child_nonneg rc]: the child VM (CHECKPREDICATE) never turns a non-negative run limit into a
+   negative one; VM.run satisfies it (C07).  For CHECKPREDICATE the reference charge is
+   64 + (child limit − child's remaining run limit − memory of the child's final stacks
+   + memory of the arguments handed over) + the change of stack memory ([Spec.cp_consumption]). *)
+Theorem c08_exec_refines_spec_full : forall cr cx rc s i, sane s -> ctx_sane cx -> child_nonneg rc ->
+  parse_op (prog s) (pc s) = inr i -> (i_op i < 256)%N ->
+  enough_gas cr cx rc i s ->
+  outcome (step cr cx rc s) = spec_instr cr cx rc i s.
+Proof. exact step_refines_spec_full. Qed.
+Print Assumptions c08_exec_refines_spec_full.
 
-(* ---- proved: every opcode class except CHECKPREDICATE ---- *)
-
+(* the same without any hypothesis on the child function, for every opcode but CHECKPREDICATE *)
 Theorem c08_exec_refines_spec_partial : forall cr cx rc s i, sane s -> ctx_sane cx ->
   parse_op (prog s) (pc s) = inr i ->
   In (i_op i) covered_ops ->
@@ -52,16 +49,21 @@ Theorem c08_covered_all_but_checkpredicate :
 Proof. exact covered_all_but_192. Qed.
 Print Assumptions c08_covered_all_but_checkpredicate.
 
-(* CHECKPREDICATE: data/alt stacks and error class (error precedence included) agree with the
-   reference; [rc] is the child VM (any function whose result has a non-negative run limit),
-   the hypothesis on the run limit is "base charge 256 plus the explicit child limit" *)
-Theorem c08_checkpredicate_stacks : forall cr cx rc s i,
-  parse_op (prog s) (pc s) = inr i -> i_op i = 192%N ->
-  (forall c, (0 <= runlimit (snd (rc c)))%Z) ->
-  (256 + size_operand (top0 (dstack s)) <= runlimit s)%Z ->
-  stacks_of (outcome (step cr cx rc s)) = stacks_of (spec_instr cr cx rc i s).
-Proof. exact step_checkpredicate_stacks. Qed.
-Print Assumptions c08_checkpredicate_stacks.
+(* ---- whole runs ----
+   [spec_run] (Runs.v) iterates the reference step over a program; CHECKPREDICATE runs its
+   child by [spec_run] itself.  It answers [SUnspec] when fuel runs out, when an instruction
+   lacks [enough gas], when a length stops being a Go int, or when a CHECKPREDICATE child does
+   not finish normally.  Whenever it answers, VM.run (the real recursion, children
+   included) gives that answer: same final program counter, gas, stacks — or same error. *)
+Theorem c08_run_refines_spec_run : forall cr cx, ctx_sane cx ->
+  forall fuel s,
+    match spec_run cr cx fuel (abs s) with
+    | SDone st => exists s', run cr cx fuel s = ROk tt s' /\ abs s' = st
+    | SFail e => exists s', run cr cx fuel s = RErr e s'
+    | SUnspec => True
+    end.
+Proof. exact run_refines_spec_run. Qed.
+Print Assumptions c08_run_refines_spec_run.
 
 (* the bytes treated as undefined by the reference are exactly the model's expansion opcodes *)
 Theorem c08_expansion_set : expansion_ops = filter is_expansion (map N.of_nat (seq 0 256)).
